@@ -104,8 +104,8 @@ func (p *Proc) Exit(code int) {
 	}
 	p.Alive = false
 	p.Code = code
-	sched.Touch(&p.obj, 21)
 	p.k.log(Event{Kind: "exit", Pid: p.Pid, Path: p.Path, Code: code})
+	sched.Touch(&p.obj, 21) // after the log entry, so that its stamp travels with the death notice
 }
 
 // Die terminates the process by a signal.
@@ -115,8 +115,8 @@ func (p *Proc) Die(sig int) {
 	}
 	p.Alive = false
 	p.Sig = sig
-	sched.Touch(&p.obj, 22)
 	p.k.log(Event{Kind: "exit", Pid: p.Pid, Path: p.Path, Code: -sig})
+	sched.Touch(&p.obj, 22)
 }
 
 // Fork creates a child process in the same process group.
